@@ -149,9 +149,89 @@ def decoder_suffix_format(eng: Engine):
                 fm = st[1][1]
                 if fm[1][0] == "elem" and fm[1][1] == idxp and isinstance(fm[2], str):
                     found.add((st[1][0][1], fm[2]))
+    if not found:
+        # stateful form: the stored name is key + <instance field>, the field being extended per group iteration by the group routine
+        ff = suffix_field_form(eng)
+        if ff is not None:
+            return ff[1], ff[2]
     if len(found) != 1:
         raise AnalysisError(f"decoder index-suffix format not uniquely determined: {sorted(found)}")
     return next(iter(found))
+
+
+def suffix_field_form(eng: Engine):
+    """(field, sep, spec, push effect) when the single-field routine names attributes `key + self.<field>` and the group routine appends
+    f"<sep>{i:<spec>}" to that field; else None."""
+    f = eng.repo.func(eng.single_field_routine)
+    se = eng.symeval(f.qualname)
+    anamT = ("param", f.params[1])
+    fields = set()
+    for e in se.effects:
+        if e.kind == "call" and e.term[2] == ("builtin", "setattr") and len(e.term[3]) == 3:
+            nm = e.term[3][1]
+            if nm[0] == "bin" and nm[1] == "+" and nm[2] == anamT and nm[3][0] in ("field", "fieldv"):
+                fields.add(nm[3][1])
+    if len(fields) != 1:
+        return None
+    F = next(iter(fields))
+    sg = eng.symeval(eng.group_routine)
+    for e in sg.effects:
+        if e.kind == "aug" and e.target == ("self", F) and e.term[0] == "bin" and e.term[1] == "+" and e.term[3][0] == "fstr":
+            parts = e.term[3][1]
+            if len(parts) == 2 and is_const(parts[0]) and parts[1][0] == "fmt" and isinstance(parts[1][2], str):
+                return F, parts[0][1], parts[1][2], e
+    return None
+
+
+def max_group_index(eng: Engine):
+    """(bound, witness text): the largest group index a definition can generate and that fits a 1023-byte payload, from the
+    tables alone: integer counts, 2^w - 1 of a counter field of width w (+1 for the layer counter), 153 for the coefficient groups."""
+    T = eng.tables
+    facts = eng.decoder_facts
+    derived, plus_one = facts["derived_counters"], facts["count_plus_one"]
+    best = (0, "")
+    for _tn, ident, d, _prov in T.definitions():
+        for o in T.walk(ident, d):
+            if o.kind != "group":
+                continue
+            g = o.count
+            if isinstance(g, int):
+                b = g
+            else:
+                base = g.split("+")[0]
+                if base in derived:
+                    if not base.startswith("_"):
+                        continue  # MSM counts: bounded by the mask widths (<= 64), never the maximum
+                    b = 153  # (N+1)(N+2)/2 at degree 16, order 16
+                else:
+                    fd = T.fields.get(base)
+                    if not (isinstance(fd, tuple) and len(fd) == 4 and isinstance(fd[1], int)):
+                        continue
+                    b = (1 << fd[1]) - 1 + (1 if base in plus_one else 0)
+            item = sum(T.fields[k][1] for k, v in (o.body or {}).items() if isinstance(v, str) and isinstance(T.fields.get(k), tuple) and isinstance(T.fields[k][1], int))
+            if item * b > 1023 * 8:
+                b = (1023 * 8) // max(item, 1)
+            if b > best[0]:
+                best = (b, f"group {o.key} of {ident} (count {g}) can reach index {b}")
+    return best
+
+
+def suffix_table_domain(eng: Engine, ctx: Ctx, rid: str):
+    """If an index suffix comes from a finite pre-formatted table, the table must cover every index the definitions can generate."""
+    bound, wit = max_group_index(eng)
+    n = 0
+    for q in (eng.single_field_routine, eng.group_routine):
+        f = eng.repo.func(q)
+        se = eng.symeval(q)
+        seen = set()
+        for size, idx, sep, spec in se.format_tables:
+            if (size, sep, spec) in seen:
+                continue
+            seen.add((size, sep, spec))
+            n += 1
+            ctx.check(size > bound, rid, q, f"pre-formatted index suffix table of {size} entries", expected=f"covers every index the definitions can generate (0..{bound})",
+                      found=f"entries 0..{size - 1} only: {wit}", **eng.loc(f, f.node))
+    return n
 
 
 # ============================================================================ C03-D9 derived counts (shared with C09-D1)
@@ -176,9 +256,10 @@ def specialise_single(eng: Engine, key: str, index_depth: int = 1):
     return eng.symeval(f.qualname, bind=bind)
 
 
-def derived_counts(eng: Engine, ctx: Ctx, rid: str) -> int:
-    ctx.rule(rid, "NSat/NSig/NCell are the population count of the *same* extracted bits of DF394/DF395/DF396; "
-                  "the map builder is invoked after the cell count is stored, for the cell mask only")
+def derived_counts(eng: Engine, ctx: Ctx, rid: str, labels: bool = True) -> int:
+    """labels=False: only the counts (what C10's bit lengths depend on), not when the label maps are built."""
+    ctx.rule(rid, "NSat/NSig/NCell are the population count of the *same* extracted bits of DF394/DF395/DF396"
+                  + ("; the map builder is invoked after the cell count is stored, for the cell mask only" if labels else ""))
     facts = eng.decoder_facts
     f = eng.repo.func(eng.single_field_routine)
     mb = eng.repo.func(eng.map_builder)
@@ -199,6 +280,8 @@ def derived_counts(eng: Engine, ctx: Ctx, rid: str) -> int:
         ok = _is_popcount(cnt_store[0].term[3][2], stored_val) and cnt_store[0].guards == base_guards
         ctx.check(ok, rid, f.qualname, f"{cnt} = popcount({src})", expected=f"population count of the value stored as {src}", found=show(cnt_store[0].term[3][2])[:120]
                   + (f" under {guard_text(cnt_store[0].guards)}" if cnt_store[0].guards else ""), **loc)
+        if not labels:
+            continue
         calls = [e for e in se.effects if e.kind == "call" and is_self_call(e.term, mb.name)]
         want_call = src == facts["derived_counters"].get(eng.tables.const.get("NCELL", "NCell"))
         if want_call:
@@ -208,7 +291,7 @@ def derived_counts(eng: Engine, ctx: Ctx, rid: str) -> int:
             ctx.check(not calls, rid, f.qualname, f"map builder not invoked at {src}", expected="no call", found=f"{len(calls)} call(s)", **loc)
     # no other field triggers the map builder / counter stores: evaluate with a generic key
     se = eng.symeval(f.qualname)
-    for e in se.effects:
+    for e in se.effects if labels else ():
         if e.kind == "call" and is_self_call(e.term, mb.name):
             n += 1
             keys = set()
@@ -286,6 +369,15 @@ def crc_transfer(eng: Engine, ctx: Ctx, rid: str):
     bvc.declare(elem, "o", 8)
     body = (info.get("body_end") or {}).get(sv)
     nxt = bvc.to_bv(body) if body is not None else None
+    if (nxt is None or not nxt.known()) and body is not None:
+        # a lookup table that is not GF(2)-affine in a fully reachable index cannot implement any CRC step
+        for st in subterms(body):
+            if isinstance(st, tuple) and len(st) == 3 and st[0] == "idx" and is_const(st[1]) and isinstance(st[1][1], (tuple, list)):
+                wit = bvc.nonaffine_witness(st[1][1], bvc.to_bv(st[2]))
+                if wit:
+                    ctx.bad(rid, f.qualname, "lookup table of the per-octet step", expected="a GF(2)-linear table (T[a ^ b] = T[a] ^ T[b] ^ T[0]): every CRC step is linear",
+                            found=f"entry {wit[0]} is {wit[1]:#x}, the entries at powers of two imply {wit[2]:#x}", **loc)
+                    return None
     if nxt is None or not nxt.known():
         ctx.undecided(rid, f.qualname, "transfer function", detail="loop body not representable in the GF(2) affine domain: " + (show(body)[:120] if body else "-"), **loc)
         return None
